@@ -256,6 +256,29 @@ def _run(ctx):
     r3.check(ok, ctx.construct(sc, extra='both start paths'),
              'a start path does not pass input_dict and wf_params',
              ctx.loc(sc))
+    # the two paths are alternatives for the same request: they agree on
+    # the definition, namespace, execution id, input and description (the
+    # id is None on both: every start - a retry, a rerun, another item -
+    # creates a NEW child; a derived id makes the second start find the
+    # finished first child and create nothing)
+    if len(starts) == 2:
+        a5 = [[norm(x) for x in c.args[:5]] for c in starts]
+        r3.check(a5[0] == a5[1] and len(a5[0]) == 5,
+                 ctx.construct(sc, extra='start paths agree'),
+                 'the direct and the RPC start of a sub-workflow differ in '
+                 'their leading arguments: %s / %s' % (a5[0], a5[1]),
+                 ctx.loc(sc))
+        r3.check(all(len(c.args) > 2 and (
+                     (isinstance(c.args[2], ast.Constant) and
+                      c.args[2].value is None) or
+                     (isinstance(c.args[2], ast.Call) and
+                      U.call_name(c.args[2]) in ('generate_unicode_uuid',
+                                                 'uuid4')))
+                     for c in starts),
+                 ctx.construct(sc, extra='fresh child per start'),
+                 'a sub-workflow is started with a chosen execution id: a '
+                 'second start of the same task (retry, rerun) collides '
+                 'with the first child and starts nothing', ctx.loc(sc))
 
     # ---- R4 environment of the root execution ----------------------------------
     r5 = ctx.rule('R5', 'a sub-workflow counts as finished for its parent '
